@@ -86,12 +86,28 @@ def first? {α} (l : List (Option α)) : Option α := l.findSome? id
     stored response with header `stored`? Not when the request or the 304 carries no-store (RFC 9111
     §5.2.1.5, §5.2.2.5: no part of the response is stored), and not when it is not a validation result
     for that stored response (`Spec.isValidationOf`). -/
-def freshenForbidden (reqH callH stored : Header) (rp : Resp) : Option String :=
+def freshenForbidden (reqH callH stored : Header) (rp : Resp) (storedStatus : Nat := 200) (conservative : Bool := false) : Option String :=
   if Spec.hasDirective Spec.rfc reqH (str% "no-store") then some "the request carries no-store"
   else if Spec.hasDirective Spec.rfc rp.header (str% "no-store") then some "the 304 carries no-store"
   else if !Spec.isValidationOf stored callH then
     some s!"it answers the client's own precondition (request [{showHdrs callH}], stored validators [{showHdrs (stored.filter fun p => p.1 = sETag || p.1 = sLastModified)}])"
-  else none
+  else
+    -- the response as it would be stored: the stored status with the merged fields. What may not be stored when
+    -- it arrives directly may not be stored when a 304 turns the stored response into it either.
+    let merged := Spec.merge304 canonicalHeaderKey stored rp.header
+    if Spec.hasDirective Spec.rfc merged (str% "must-understand") && !Generated.statusUnderstood.contains storedStatus then
+      some s!"the merged response carries must-understand with status {storedStatus}, which is not understood"
+    else if !Spec.hasDirective Spec.rfc merged (str% "max-age") && !Header.has merged sExpires && !Spec.hasDirective Spec.rfc merged (str% "public") &&
+            !Spec.heuristicallyCacheable.contains storedStatus then
+      some s!"the merged response (status {storedStatus}) has no explicit freshness and is not heuristically cacheable"
+    -- `conservative` (used where a write is DEMANDED, C08, not where one is forbidden): a cache may decline to store
+    -- what it could store. The implementation's own table of heuristically cacheable statuses is shorter than RFC 9110's
+    -- (no 204, 300), and an Expires field without a value is no explicit freshness to it: a merged response it would not
+    -- have stored had it arrived directly has a lifetime of zero in its own terms, so no later request is "within the new lifetime".
+    else if conservative && !Spec.hasDirective Spec.rfc merged (str% "max-age") && (Header.get merged sExpires).isEmpty &&
+            !Spec.hasDirective Spec.rfc merged (str% "public") && !Generated.heuristicStatus.contains storedStatus then
+      some s!"the merged response (status {storedStatus}) has no explicit freshness and the cache does not assign heuristic freshness to that status"
+    else none
 
 /-! ### the stored response as the ORIGIN's replies define it (ghost)
 
@@ -134,7 +150,7 @@ def Hist.ghostAt (h : Hist) (n : Nat) : Option Spec.Stored :=
                 ((alookup srcKey m).join).map fun old =>
                   -- not a validation result, or no-store on either side: nothing may change
                   if (match h.reqs.find? (·.n = e.n) with
-                      | some ri => (freshenForbidden ri.req.header c.hdr old.header rp.resp).isSome
+                      | some ri => (freshenForbidden ri.req.header c.hdr old.header rp.resp old.status).isSome
                       | none => !Spec.isValidationOf old.header c.hdr) then old else
                   { old with header := Spec.merge304 canonicalHeaderKey old.header (dateFixed h rp.resp.header c.t1),
                              requestTime := c.t0, responseTime := c.t1 }
@@ -253,7 +269,7 @@ def notAValidation (h : Hist) (e : StoreEv) : Option String :=
           | _, _, _ => none) with
       | none => none
       | some old =>
-        (freshenForbidden ri.req.header c.hdr old.resp.header rp.resp).map fun why =>
+        (freshenForbidden ri.req.header c.hdr old.resp.header rp.resp old.resp.status).map fun why =>
           s!"exchange {e.n} ({e.stream}): a 304 was written into the stored response although {why}"
   | _, _ => none
 
